@@ -1,12 +1,14 @@
 (* C17 model runner.  One case per line:
-   <id> T|A|W <maxretry> <minw> <maxw> <tbl> <dflt> <cancel> <bodykind> <hexbody> <script> <opts>
+   <id> T|A|W|U|u <pred> <maxretry> <minw> <maxw> <tbl> <dflt> <cancel> <bodykind> <hexbody> <script> <opts>
         opts    harness-only options the code under test must not depend on (u = ContentLength left
                 unknown, method=..., preauth = auth client stack with Authorization preset); ignored here
         tbl     comma separated integers, or -
         cancel  - | <tc>:c | <tc>:d
         bodykind [M|m]N | R | O | G<k>      (prefix M = manifest push through an auth client, m = through another client)
-        script  beh;beh;... or -   beh = <out>/<read>/<lat>  out = S<code>:<hexRetryAfter>:<chal> | TO | ER  read = * | <k>
-   <id> D <maxretry> <minw> <maxw> <tbl> <dflt> <attempt> <out>
+        pred    - (DefaultPredicate) | <code><R|S|F>,...;d<R|S|F>;e<R|S|F>  (status table; other statuses; transport errors)
+        script  beh;beh;... or -   beh = <out>/<read>/<lat>  read = * | <k>
+                out = S<code>:<hexRetryAfter>:<chal> | E<isnet><timeout><temporary>[:shape] | TO (=E111) | ER (=E000)
+   <id> D <pred> <maxretry> <minw> <maxw> <tbl> <dflt> <attempt> <out>
    <id> B <D|P> <maxretry> <minw> <maxw> <base> <fnum> <fden> <jnum> <jden> <attempt> <out> <seen>
         seen    STOP | FAIL | PANIC | W<d> *)
 
@@ -40,8 +42,9 @@ let string_of_z (x : z) : string =
 let split_on c s = if s = "-" || s = "" then [] else String.split_on_char c s
 
 let parse_out (s : string) : outcome =
-  if s = "TO" then OTimeout
-  else if s = "ER" then OOtherErr
+  if s = "TO" then OErr (true, true, true)
+  else if s = "ER" then OErr (false, false, false)
+  else if String.length s >= 4 && s.[0] = 'E' then OErr (s.[1] = '1', s.[2] = '1', s.[3] = '1')   (* E<isnet><timeout><temporary>[:shape] *)
   else if String.length s > 0 && s.[0] = 'S' then begin
     match String.split_on_char ':' (String.sub s 1 (String.length s - 1)) with
     | [code; ra; chal] -> OStatus (z_of_string code, str_of_hex ra, n_of_int (int_of_string chal))
@@ -73,8 +76,8 @@ let parse_kind (s : string) : bodykind =
 let show_result (r : result) : string =
   match r with
   | RResp (c, _) -> "RESP" ^ string_of_z c
-  | RErrTimeout -> "ETIMEOUT"
-  | RErrOther -> "EOTHER"
+  | RErr (ne, tmo, tmp) -> Printf.sprintf "EERR%d%d%d" (Bool.to_int ne) (Bool.to_int tmo) (Bool.to_int tmp)
+  | RPredErr -> "EPRED"
   | RCtx -> "ECTX"
   | RPanic -> "PANIC"
   | RNotRewindable -> "ENOTREWINDABLE"
@@ -82,6 +85,12 @@ let show_result (r : result) : string =
   | RFuel -> "FUEL"
 
 let rec length_int l = List.length l
+
+let show_attempts_list (orig : str) (l : (z * str) list) : string =
+  match l with
+  | [] -> "-"
+  | l -> String.concat "," (List.map (fun (t, got) ->
+      string_of_z t ^ ":" ^ (if is_prefix got orig then string_of_int (List.length got) else "BAD")) l)
 
 let show_attempts (orig : str) (tr : event list) : string =
   match attempts tr with
@@ -96,6 +105,20 @@ let show_seen_decision (d : decision) : string =
   | DPanic -> "PANIC"
   | DWait x -> if Z.ltb x Z0 then "STOP" else "W" ^ string_of_z x   (* a negative duration means: do not retry *)
 
+let parse_rule (c : char) : pred_result =
+  match c with 'R' -> PRetry | 'S' -> PStop | 'F' -> PFail | _ -> failwith "bad predicate rule"
+
+(* "-" = DefaultPredicate; otherwise <code><R|S|F>,...;d<rule>;e<rule> *)
+let parse_pred (s : string) : outcome -> pred_result =
+  if s = "-" then default_predicate
+  else match String.split_on_char ';' s with
+    | [tbl; d; e] ->
+      let entries = List.map (fun x ->
+          let n = String.length x in
+          (z_of_string (String.sub x 0 (n - 1)), parse_rule x.[n - 1])) (split_on ',' tbl) in
+      custom_predicate entries (parse_rule d.[1]) (parse_rule e.[1])
+    | _ -> failwith ("bad predicate " ^ s)
+
 let parse_seen (s : string) : obs_decision =
   if s = "STOP" then ODStop else if s = "FAIL" then ODFail else if s = "PANIC" then ODPanic
   else ODWait (z_of_string (String.sub s 1 (String.length s - 1)))
@@ -108,8 +131,8 @@ let guarded = exp_backoff_guarded
 let () =
   iter_lines (fun l ->
     match split_ws l with
-    | [id; ("T" | "A" | "W") as op; mr; mn; mx; tbl; dflt; cn; kind; body; script; _opts] ->
-      let p = table_policy (z_of_string mr) (z_of_string mn) (z_of_string mx)
+    | [id; ("T" | "A" | "W" | "U" | "u") as op; pred; mr; mn; mx; tbl; dflt; cn; kind; body; script; _opts] ->
+      let p = table_policy (parse_pred pred) (z_of_string mr) (z_of_string mn) (z_of_string mx)
           (List.map z_of_string (split_on ',' tbl)) (z_of_string dflt) in
       let manifest, kind' =
         if kind.[0] = 'M' then Some true, String.sub kind 1 (String.length kind - 1)
@@ -119,7 +142,16 @@ let () =
       let bd = match manifest with Some a -> manifest_push_body a bd0 | None -> bd0 in
       let sc = List.map parse_beh (split_on ';' script) in
       let cn = parse_cancel cn in
-      if op = "T" then begin
+      if op = "U" || op = "u" then begin
+        (* blob push through the Repository: U = auth client, u = plain retrying client *)
+        let u = blob_push (op = "U") p cn bd sc in
+        let atts a = show_attempts_list bd.bdata a in
+        let put1, put2 = match u.u_put with
+          | Some a -> atts (attempts a.a_first), atts (attempts a.a_second)
+          | None -> "-", "-" in
+        Printf.printf "%s %s end=%s post=%s|%s put=%s|%s\n" id (show_result u.u_res) (string_of_z u.u_time)
+          (atts (attempts u.u_post.a_first)) (atts (attempts u.u_post.a_second)) put1 put2
+      end else if op = "T" then begin
         let o = round_trip p cn bd (init_state bd) sc Z0 in
         Printf.printf "%s %s end=%s first=%s\n" id (show_result o.o_res) (string_of_z o.o_time)
           (show_attempts bd.bdata o.o_trace)
@@ -128,8 +160,8 @@ let () =
         Printf.printf "%s %s end=%s first=%s second=%s third=%s\n" id (show_result o.a_res) (string_of_z o.a_time)
           (show_attempts bd.bdata o.a_first) (show_attempts bd.bdata o.a_second) (show_attempts bd.bdata o.a_third)
       end
-    | [id; "D"; mr; mn; mx; tbl; dflt; att; out] ->
-      let p = table_policy (z_of_string mr) (z_of_string mn) (z_of_string mx)
+    | [id; "D"; pred; mr; mn; mx; tbl; dflt; att; out] ->
+      let p = table_policy (parse_pred pred) (z_of_string mr) (z_of_string mn) (z_of_string mx)
           (List.map z_of_string (split_on ',' tbl)) (z_of_string dflt) in
       Printf.printf "%s %s\n" id (show_seen_decision (generic_retry p (z_of_string att) (parse_out out)))
     | [id; "B"; which; mr; mn; mx; base; fn; fd; jn; jd; att; out; seen] ->
